@@ -228,8 +228,8 @@ Definition gd_visit_uncond (s : selection) : N :=
 Record gd_mode := mk_gdm {
   gm_fields : bool; gm_spreads : bool; gm_skip : bool; gm_visit : selection -> N }.
 
-(* The walks return the number of visits made so far together with the result: callers that discard the
-   error (`let _ = forbid_defer_on_root(..)`) keep the diagnostics pushed before it. *)
+(* The walks return the number of visits made so far together with the result: the diagnostics pushed
+   before a limit error stay in the list (validate_defer only looks at `.is_err()`). *)
 Definition gd_wres := (N * gd_res (gd_counter * list str))%type.
 
 Section Walk.
@@ -641,36 +641,58 @@ Definition gd_optype_eqb (a b : optype) : bool :=
 Definition gd_doc_walk (m : gd_mode) (fr : gd_frag_table) (sels : list selection) : gd_wres :=
   gd_walk_top (gd_fuel_of gd_walk_limit) (gd_table_sels fr) m sels.
 
-(* What the guarded walks of executable validation leave in the diagnostics of a document:
-   - RecursionError: validate_unused_variables (every operation) and validate_subscription (subscriptions)
-     push one when their walk fails;
-   - RecursionLimitError without location: validate_fragments_used pushes one when collect_used_fragments
+(* What the guarded walks of executable validation leave in the diagnostics of a document, in the order
+   executable/validation.rs runs them:
+   - validate_operation_definitions: validate_unused_variables pushes one RecursionError for every operation
+     whose deduplicating walk fails;
+   - validate_fragments_used pushes one RecursionLimitError without location when collect_used_fragments
      fails (the `?` stops at the first failing operation);
-   - forbid_defer_on_root runs for mutations and subscriptions, forbid_unconditional_defer for
-     subscriptions; both results are discarded (`let _ =`), their diagnostics stay. *)
+   - validate_defer: validate_defer_labels runs walk_defers_in_selection_set over every operation and every
+     fragment definition, forbid_defer_on_root runs for mutations and subscriptions,
+     forbid_unconditional_defer for subscriptions; their diagnostics stay whatever the result of the walk;
+     if some walk ended with the limit error (`limit_reached`) and the list holds no RecursionError /
+     RecursionLimitError yet (`!diagnostics.has_recursion_error()`: only the two walks above can have pushed
+     one into a list that had none when validation started), one RecursionError is pushed;
+   - validate_with_schema: validate_subscription pushes one RecursionError for every subscription whose
+     walk_selections fails.
+   `swallow = true` is validate_defer as it was before the repair: the results of its walks were
+   discarded (`let _ =`) and it never pushed a RecursionError. *)
 Record gd_walk_obs := mk_gwo {
   gwo_recursion : N; gwo_used_limit : N; gwo_defer_root : N; gwo_uncond : N;
-  gwo_defer_truncated : bool    (* not a diagnostic: some discarded @defer walk ended with the limit error *) }.
+  gwo_defer_truncated : bool    (* `limit_reached`: some @defer walk ended with the limit error *) }.
 
 Definition gd_b2n (b : bool) : N := if b then 1 else 0.
 
-Definition gd_doc_walk_obs (doc : document) : gd_walk_obs :=
+Definition gd_doc_walk_obs_with (swallow : bool) (doc : document) : gd_walk_obs :=
   let d := gd_doc_frags doc in
   let ops := gd_doc_ops doc in
   let dedup_limit := map (fun o => gd_is_limit (snd (gd_doc_walk gd_mode_dedup d (snd o)))) ops in
   let sub_limit := map (fun o => gd_optype_eqb (fst o) OpSubscription
                                  && gd_is_limit (snd (gd_doc_walk gd_mode_walk_selections d (snd o)))) ops in
+  let limit_reached :=
+    existsb (fun o => gd_is_limit (snd (gd_doc_walk gd_mode_defers d (snd o)))) ops
+    || existsb (fun f => gd_is_limit (snd (gd_doc_walk gd_mode_defers d (snd f)))) d
+    || existsb (fun o => (negb (gd_optype_eqb (fst o) OpQuery)
+                          && gd_is_limit (snd (gd_doc_walk gd_mode_defer_root d (snd o))))
+                         || (gd_optype_eqb (fst o) OpSubscription
+                             && gd_is_limit (snd (gd_doc_walk gd_mode_uncond_defer d (snd o))))) ops in
+  (* has_recursion_error() when validate_defer asks: a RecursionError of validate_unused_variables (and then
+     also the RecursionLimitError of validate_fragments_used, which runs the same walk) *)
+  let reported_before := existsb (fun b => b) dedup_limit in
   mk_gwo
-    (fold_right N.add 0 (map gd_b2n dedup_limit) + fold_right N.add 0 (map gd_b2n sub_limit))
-    (gd_b2n (existsb (fun b => b) dedup_limit))
+    (fold_right N.add 0 (map gd_b2n dedup_limit)
+     + gd_b2n (negb swallow && limit_reached && negb reported_before)
+     + fold_right N.add 0 (map gd_b2n sub_limit))
+    (gd_b2n reported_before)
     (fold_right N.add 0 (map (fun o => if gd_optype_eqb (fst o) OpQuery then 0
                                        else fst (gd_doc_walk gd_mode_defer_root d (snd o))) ops))
     (fold_right N.add 0 (map (fun o => if gd_optype_eqb (fst o) OpSubscription
                                        then fst (gd_doc_walk gd_mode_uncond_defer d (snd o)) else 0) ops))
-    (existsb (fun o => (negb (gd_optype_eqb (fst o) OpQuery)
-                        && gd_is_limit (snd (gd_doc_walk gd_mode_defer_root d (snd o))))
-                       || (gd_optype_eqb (fst o) OpSubscription
-                           && gd_is_limit (snd (gd_doc_walk gd_mode_uncond_defer d (snd o))))) ops).
+    limit_reached.
+
+Definition gd_doc_walk_obs : document -> gd_walk_obs := gd_doc_walk_obs_with false.
+(* before the repair (kept for the refuted witness of the former finding defer_walk_limit_swallowed) *)
+Definition gd_doc_walk_obs_old : document -> gd_walk_obs := gd_doc_walk_obs_with true.
 
 (* FindRecursiveInputValue::check for every input object, FindRecursiveDirective::check for every
    directive definition, in schema order *)
